@@ -80,6 +80,9 @@ pub fn guarded<T>(f: impl FnOnce() -> T + std::panic::UnwindSafe) -> Option<T> {
 }
 
 pub fn silence_panics() {
+    if std::env::var("LV_PANIC_MSG").is_ok() {
+        return;
+    }
     std::panic::set_hook(Box::new(|_| {}));
 }
 
